@@ -79,10 +79,14 @@ func init() {
 		}
 		rd := bufio.NewReaderSize(lf, 1<<22)
 		type rec struct {
-			Sym  string `json:"sym"`
-			N    int    `json:"n"`
-			Hash string `json:"h"`
+			Sym  string   `json:"sym"`
+			N    int      `json:"n"`
+			Hash string   `json:"h"`
+			It   []string `json:"it,omitempty"` // items of verdict-returning functions (compared up to the verdict)
 		}
+		verdict := map[string]bool{"github.com/bilibili/smgo/utils.ConstantTimeCmp": true,
+			"github.com/bilibili/smgo/sm2.TestPrivateKey": true, "crypto/subtle.ConstantTimeCompare": true, "main.main.func1": true}
+		var segItems []string
 		var recs []rec
 		var items []string
 		pages := map[uint64]int{}
@@ -91,8 +95,14 @@ func init() {
 		cur, n, total := "", 0, 0
 		flush := func() {
 			if cur != "" && n > 0 {
-				recs = append(recs, rec{cur, n, hex.EncodeToString(h.Sum(nil)[:12])})
+				r := rec{Sym: cur, N: n, Hash: hex.EncodeToString(h.Sum(nil)[:12])}
+				if verdict[cur] {
+					r.It = segItems
+					r.Hash = "" // judged item by item
+				}
+				recs = append(recs, r)
 			}
+			segItems = nil
 			h.Reset()
 			n = 0
 		}
@@ -103,6 +113,9 @@ func init() {
 			total++
 			if total <= limit {
 				items = append(items, s)
+			}
+			if verdict[cur] && len(segItems) < 20000 {
+				segItems = append(segItems, s)
 			}
 		}
 		for !done {
